@@ -1,3 +1,98 @@
-import GambitV.Model.Jaccard
+import GambitV.Lemmas.Jaccard
+
+/-!
+# C02 — `c_jaccarddist` computes the Jaccard distance of the two sorted coordinate arrays
+
+Part A: exact (set-level) statements about the merge count and the shape of the float expression.
+-/
 namespace GambitV.C02
+open GambitV
+
+/-- A1. On strictly increasing arrays the merge loop's `u` is `|A ∪ B|`. -/
+theorem unionCount_eq_card {a b : List Nat} (ha : a.Pairwise (· < ·)) (hb : b.Pairwise (· < ·)) :
+    unionCount a b = (a.toFinset ∪ b.toFinset).card :=
+  unionCount_eq_card' ha hb
+
+/-- A2. The merge count is symmetric (for arbitrary, not necessarily sorted, inputs). -/
+theorem unionCount_comm (a b : List Nat) : unionCount a b = unionCount b a :=
+  unionCount_comm' a b
+
+/-- A3 (general form, no sortedness needed). -/
+theorem unionCount_bounds_general (a b : List Nat) :
+    a.length ≤ unionCount a b ∧ b.length ≤ unionCount a b ∧
+      unionCount a b ≤ a.length + b.length :=
+  ⟨length_le_unionCount_left a b, length_le_unionCount_right a b, unionCount_le_add a b⟩
+
+/-- A3. `max N M ≤ u ≤ N + M`. -/
+theorem unionCount_bounds {a b : List Nat} (_ha : a.Pairwise (· < ·)) (_hb : b.Pairwise (· < ·)) :
+    a.length ≤ unionCount a b ∧ b.length ≤ unionCount a b ∧
+      unionCount a b ≤ a.length + b.length :=
+  unionCount_bounds_general a b
+
+/-- A4. The numerator `2u - N - M` is `|A ∆ B|` (the subtraction does not truncate, by A3). -/
+theorem symmDiff_card {a b : List Nat} (ha : a.Pairwise (· < ·)) (hb : b.Pairwise (· < ·)) :
+    2 * unionCount a b - a.length - b.length = (symmDiff a.toFinset b.toFinset).card := by
+  have h := card_symmDiff_add a.toFinset b.toFinset
+  rw [unionCount_eq_card ha hb, length_eq_card_of_sorted ha, length_eq_card_of_sorted hb]
+  omega
+
+/-- A5. Two empty signatures have distance `+0.0`. -/
+theorem jaccard_empty : jaccardBits [] [] = 0 := by
+  simp [jaccardBits, unionCount_nil_left, F32.zeroBits]
+
+theorem jaccardBits_of_union_zero {a b : List Nat} (h : unionCount a b = 0) :
+    jaccardBits a b = 0 := by
+  simp [jaccardBits, h, F32.zeroBits]
+
+theorem unionCount_eq_zero_iff (a b : List Nat) : unionCount a b = 0 ↔ a = [] ∧ b = [] := by
+  constructor
+  · intro h
+    have h1 := length_le_unionCount_left a b
+    have h2 := length_le_unionCount_right a b
+    exact ⟨List.eq_nil_of_length_eq_zero (by omega), List.eq_nil_of_length_eq_zero (by omega)⟩
+  · rintro ⟨rfl, rfl⟩; simp [unionCount_nil_left]
+
+/-- A6. For a non-empty union the result is `(float)(2u-N-M) / (float)u`, both conversions being of
+non-negative integers (no sortedness needed: A3 holds for arbitrary inputs). -/
+theorem jaccardBits_unfold {a b : List Nat} (h : unionCount a b ≠ 0) :
+    jaccardBits a b =
+      F32.div (F32.ofNat (2 * unionCount a b - a.length - b.length)) (F32.ofNat (unionCount a b)) := by
+  have h1 := length_le_unionCount_left a b
+  have h2 := length_le_unionCount_right a b
+  have hnn : ¬ ((2 * (unionCount a b : Int)) - a.length - b.length < 0) := by omega
+  have hnn' : ¬ ((unionCount a b : Int) < 0) := by omega
+  have ht : ((2 * (unionCount a b : Int)) - a.length - b.length).toNat
+      = 2 * unionCount a b - a.length - b.length := by omega
+  simp only [jaccardBits, if_neg h, F32.ofInt, if_neg hnn, if_neg hnn', ht, Int.toNat_natCast]
+
+/-- A7. Bit-for-bit symmetry. -/
+theorem jaccardBits_symm (a b : List Nat) : jaccardBits a b = jaccardBits b a := by
+  unfold jaccardBits
+  rw [unionCount_comm a b]
+  have : (2 * (unionCount b a : Int)) - a.length - b.length
+       = (2 * (unionCount b a : Int)) - b.length - a.length := by omega
+  simp only [this]
+
+/-- A8. `jaccard = 1 - jaccarddist` in single precision. -/
+theorem index_eq_one_sub (a b : List Nat) :
+    jaccardIndexBits a b = F32.sub F32.oneBits (jaccardBits a b) := rfl
+
+/-- A9. `_cast_sigs_array` accepts exactly integer dtypes of 2, 4 or 8 bytes, keeping the width. -/
+theorem castDtype_spec (kind : Char) (size w : Nat) :
+    castDtype kind size = some w ↔
+      (kind = 'u' ∨ kind = 'i') ∧ (size = 2 ∨ size = 4 ∨ size = 8) ∧ w = size := by
+  unfold castDtype
+  split
+  · next h => simp only [Option.some.injEq]; constructor
+              · intro e; exact ⟨h.1, h.2, e.symm⟩
+              · intro e; exact e.2.2.symm
+  · next h => simp only [reduceCtorEq, false_iff]; intro e; exact h ⟨e.1, e.2.1⟩
+
+/-! ### Non-vacuity -/
+
+example : unionCount [1, 2, 3] [2, 3, 4] = 4 := by decide +kernel
+example : jaccardBits [1, 2, 3] [2, 3, 4] = 0x3F000000 := by decide +kernel
+example : jaccardIndexBits [1, 2, 3] [2, 3, 4] = 0x3F000000 := by decide +kernel
+example : castDtype 'u' 8 = some 8 ∧ castDtype 'f' 4 = none ∧ castDtype 'i' 1 = none := by decide
+
 end GambitV.C02
